@@ -327,6 +327,20 @@ fn store_op(engine: &Engine, op: &Value) -> Value {
                     Err(e) => json!({"harness_err": e.to_string()}),
                 },
                 "delete" => json!({"ok": c.delete(op["arg"].as_str().unwrap_or("")).is_ok()}),
+                "purge" => {
+                    // delete every record (used to start from an empty collection where the engine pre-registers rows)
+                    let mut n = 0;
+                    if let Ok(p) = c.query(&acts::query::Query::new().set_limit(1_000_000)) {
+                        for r in p.rows.iter() {
+                            if let Some(id) = serde_json::to_value(r).ok().and_then(|v| v.get("id").and_then(|x| x.as_str().map(|s| s.to_string()))) {
+                                if c.delete(&id).is_ok() {
+                                    n += 1;
+                                }
+                            }
+                        }
+                    }
+                    json!({"purged": n})
+                }
                 "exists" => json!({"v": c.exists(op["arg"].as_str().unwrap_or("")).ok()}),
                 "find" => json!({"v": c.find(op["arg"].as_str().unwrap_or("")).ok().map(|r| serde_json::to_value(r).unwrap_or(Value::Null))}),
                 _ => match c.query(&build_query(&op["arg"])) {
